@@ -24,7 +24,7 @@ ASSUMPTIONS = [
     "secrecy is decided functionally (stored bytes equal the reference ciphertext; no secret needle occurs); cryptographic strength of zero-IV CBC is out of scope",
     "encrypted components are compared on the declared length only (stored/returned blob may be zero-padded)",
 ]
-REQUIRED_CLASSES = ["len%16!=0", "trailing00>=1", "all-zero", "framing=bec2", "framing=bf3", "via=set_config", "cipher=unregistered", "cipher=raising", "trailing00>=16", "has-needles", "retry-after-failure", "pre-existing-plain-config", "flag-without-enc-tag"]
+REQUIRED_CLASSES = ["len%16!=0", "trailing00>=1", "all-zero", "framing=bec2", "framing=bf3", "via=set_config", "cipher=unregistered", "cipher=raising", "trailing00>=16", "has-needles", "retry-after-failure", "pre-existing-plain-config", "flag-without-enc-tag", "content>4KiB"]
 
 ENC_DESC = [(0xC3, b"\x03"), (0xC2, b"\x02"), (0xC1, b"\x03"), (0xC5, b"\x01")]
 # "marked for session-key encryption" is the component's flag; the ENC tag normally accompanies it, but the object model does not tie them:
@@ -316,6 +316,28 @@ def enum_grid(tier, shard, nshards, rng):
                            blocks=[dict(kind="upd", code=bytes(rng.getrandbits(8) for _ in range(8)), version=z)], plain=[], comments=[])
 
 
+def enum_large(tier, shard, nshards, rng):
+    """CONSTRUCTED: encrypted contents far above the sizes the generated parts reach (and above any plausible internal chunk size):
+    around 4 KiB, 8 KiB, 64 KiB boundaries and beyond; both framings; direct components and big configurations through set_config"""
+    sizes = [4095, 4096, 4097, 4112, 8193, 9000, 40000] if tier == "quick" else [4095, 4096, 4097, 4112, 8193, 9000, 40000, 65535, 65536, 65537, 70001, 300000]
+    for i, n in enumerate(sizes):
+        if i % nshards != shard:
+            continue
+        content = bytes(rng.getrandbits(8) | 1 for _ in range(n - 2)) + b"\x00\x09"
+        key = bytes(rng.getrandbits(8) for _ in range(16))
+        yield dict(via="direct", content=content, actual_len=None if i % 2 else n - 1, pos=0, key=key, framing="bf3" if i % 2 else "bec2",
+                   blocks=[dict(kind="upd", code=bytes(rng.getrandbits(8) for _ in range(8)), version=i)], plain=[], comments=[])
+    # a configuration whose TLV blob exceeds 4 KiB: 40 values of 200 bytes
+    if shard == 0:
+        cfg = [(0x0300 + j, j % 200, bytes(rng.getrandbits(8) for _ in range(200))) for j in range(40 if tier == "quick" else 400)]
+        yield dict(via="set_config", config=cfg, extra=[], pos=0, key=bytes(rng.getrandbits(8) for _ in range(16)), framing="bf3", blocks=[], plain=[], comments=[])
+
+
+def check_large(case, rec):
+    rec.cls("content>4KiB")
+    check(case, rec)
+
+
 def strat_fail(tier):
     return st.fixed_dictionaries(dict(via=st.sampled_from(["direct", "set_config"]), content=S.payload(200), pos=st.integers(0, 2), actual_len=st.none(),
                                       config=S.config_entries(8, 60), extra=st.just([]),
@@ -325,6 +347,7 @@ def strat_fail(tier):
 def parts(tier):
     return [
         Part("grid", check=check, enum=enum_grid, quick=(8, 0), thorough=(16, 0), exhaustive=True),
+        Part("large", check=check_large, enum=enum_large, quick=(8, 0), thorough=(12, 0)),
         Part("generated", check=check, strategy=strat, quick=(16, 250), thorough=(16, 1500)),
         Part("cipher_failure", check=check_cipher_failure, strategy=strat_fail, quick=(16, 100), thorough=(16, 600)),
     ]
